@@ -202,6 +202,10 @@ def run_exit_cases(ctx, xz, plans):
     from harness.cli import c1819_lib as U
     import shutil
     root = os.path.join(ctx.workdir, "exit"); os.makedirs(root)
+    seen = set()
+    def once(key, detail, rep):
+        if key not in seen:
+            seen.add(key); ctx.violation(key, detail, rep)
     for n, p in enumerate(plans):
         d = os.path.join(root, "e%d" % n); os.mkdir(d)
         names = []
@@ -215,15 +219,15 @@ def run_exit_cases(ctx, xz, plans):
         ctx.case(key=("exit", json.dumps(p, sort_keys=True)))
         tag = "%s%s" % ("nowarn" if p["nowarn"] else "warn", ":q%d" % p["quiet"])
         if r.returncode != p["exit"]:
-            ctx.violation("exit:status:%s:%s" % ("-".join(sorted(set(p["files"]))), tag),
+            once("exit:status:%s:%s" % ("-".join(sorted(set(p["files"]))), tag),
                           "files %s: exit %s, model %s; stderr=%r" % (p["files"], r.returncode, p["exit"], r.stderr[:300]),
                           dict(kind="exit_case", plan=p, argv=argv[1:]))
         if bool(r.stderr.strip()) != p["stderr"]:
-            ctx.violation("exit:stderr:%s" % tag, "files %s: stderr %r, model says used=%s" % (p["files"], r.stderr[:200], p["stderr"]),
+            once("exit:stderr:%s" % tag, "files %s: stderr %r, model says used=%s" % (p["files"], r.stderr[:200], p["stderr"]),
                           dict(kind="exit_case", plan=p, argv=argv[1:]))
         want = sorted(("f%d.xz" % i) for i, o in enumerate(p["files"]) if o != "error")
         if sorted(os.listdir(d)) != want:
-            ctx.violation("exit:files:%s" % tag, "files %s: directory %r, expected %r" % (p["files"], sorted(os.listdir(d)), want),
+            once("exit:files:%s" % tag, "files %s: directory %r, expected %r" % (p["files"], sorted(os.listdir(d)), want),
                           dict(kind="exit_case", plan=p))
         shutil.rmtree(d, ignore_errors=True)
     if plans:
